@@ -46,6 +46,9 @@ impl rustc_driver::Callbacks for Cb {
             .iter()
             .any(|t| matches!(t, rustc_session_crate_type::Executable));
         let out = format!("{}/{}.{}.json", dir, name, if is_bin { "bin" } else { "lib" });
+        let _g1 = ty::print::CrateNamePrefixGuard::new();
+        let _g2 = ty::print::NoVisibleGuard::new();
+        let _g3 = ty::print::NoTrimmedGuard::new();
         let doc = Extract::new(tcx).run(&name, is_bin);
         let mut s = String::with_capacity(1 << 24);
         doc.write(&mut s);
